@@ -4,7 +4,8 @@ tree : {"backend": null|"loky"|"threading"|"multiprocessing"|"sequential", "n_jo
 Alternatively  {"seq": [[n_jobs, ntasks], ...], "pin": bool}  : a REUSE sequence -- the calls Parallel(n_jobs=n) are made one
 after the other in THIS process on the default loky backend, so that the reusable executor is resized between them
 (pin=true wraps them in parallel_config('loky', inner_max_num_threads=1) so that the worker environment, hence the executor,
-is the same whatever n_jobs is); call paths are "q0", "q1", ...
+is the same whatever n_jobs is); call paths are "q0", "q1", ...; ntasks = 0 means `with Parallel(n_jobs=n): pass` (the executor
+is configured but nothing is submitted)
 Every task of a call runs the same child call.  All processes append events to <logdir>/events.jsonl (O_APPEND, one short line
 per event).  A task, once started, waits until min(expected workers, ntasks) tasks of ITS call have started (so the
 concurrency the backend grants is really reached: deterministic barrier, generous timeout, no sleeping for luck), holds a
@@ -95,9 +96,17 @@ def run_seq(logdir, spec):
             before = id(reusable_executor._executor) if reusable_executor._executor is not None else None
             log(logdir, {"e": "call", "path": path, "pid": os.getpid(), "tid": threading.get_ident(),
                          "kind": type(p._backend).__name__, "level": p._backend.nesting_level, "eff": eff, "n_jobs": n})
-            p(delayed(task)(logdir, path, i, min(eff, m), None) for i in range(m))
-            after = id(reusable_executor._executor) if reusable_executor._executor is not None else None
-            log(logdir, {"e": "after", "path": path, "executor_reused": before is not None and before == after})
+            if m == 0:
+                # configure only: the executor is fetched (and resized) but no task is submitted, so its workers are not spawned
+                with p:
+                    pass
+            else:
+                p(delayed(task)(logdir, path, i, min(eff, m), None) for i in range(m))
+            ex = reusable_executor._executor
+            after = id(ex) if ex is not None else None
+            log(logdir, {"e": "after", "path": path, "executor_reused": before is not None and before == after,
+                         "exec": after, "max_workers": None if ex is None else ex._max_workers,
+                         "alive": None if ex is None else sum(1 for pr in list(ex._processes.values()) if pr.is_alive())})
 
 
 if __name__ == "__main__":
